@@ -12,17 +12,27 @@ pub fn now() -> i64 {
     dt.timestamp_millis()
 }
 
+const DAY_IN_MILLIS: i64 = 86_400_000;
+
 //returns the date without time
+//dates come from peers too: a value outside of the calendar's range is truncated arithmetically instead of panicking
 pub fn date(date_time: i64) -> i64 {
-    let date = DateTime::from_timestamp_millis(date_time).unwrap();
+    let date = match DateTime::from_timestamp_millis(date_time) {
+        Some(date) => date,
+        None => return date_time.div_euclid(DAY_IN_MILLIS).saturating_mul(DAY_IN_MILLIS),
+    };
     let ds: NaiveDateTime = date.date_naive().and_hms_opt(0, 0, 0).unwrap();
     ds.and_utc().timestamp_millis()
 }
 
 //returns the next day without time
 pub fn date_next_day(date_time: i64) -> i64 {
-    let date = DateTime::from_timestamp_millis(date_time).unwrap();
-    let date = date + Duration::days(1);
+    let next = DateTime::from_timestamp_millis(date_time)
+        .and_then(|date| date.checked_add_signed(Duration::days(1)));
+    let date = match next {
+        Some(date) => date,
+        None => return date(date_time).saturating_add(DAY_IN_MILLIS),
+    };
     let ds: NaiveDateTime = date.date_naive().and_hms_opt(0, 0, 0).unwrap();
     ds.and_utc().timestamp_millis()
 }
